@@ -19,7 +19,8 @@ select(P) with and without populate_existing, part_pe(o, a) (populate_existing
 re-read of ONE object through a statement whose row delivers only SOME of the
 mapped columns: ``select(P).from_statement(text("select id, <a> from p where
 id = :pk"))`` - the primary key and column a are in the row, ``name`` and the
-other value column are not), set(o.a) (pending change), read(o.a).
+other value column are not), lo_pe(o, a) (the same re-read of one object with
+``load_only(P.a)`` instead of a textual row), set(o.a) (pending change), read(o.a).
 
 Reference (SnapModel below): the committed table; the *snapshot* the session's
 transaction sees (taken at its first statement after begin / commit /
@@ -71,20 +72,27 @@ Mutations caught (private copy, VF_REPO=/tmp/wt-orm3):
     1, reference <expired>"; needs the part_pe operations (every other
     operation delivers all mapped columns).
 
-Not in the alphabet (observed on the unchanged tree, left out on purpose):
-populate_existing together with load_only() / defer() options.  There the
-column that the option defers is neither overwritten nor expired (an earlier
-loaded value stays in __dict__, only a deferred-loader callable is installed)
-and the option becomes part of the state's load_options, which later
-refresh()/unexpire loads replay; whether that is covered by the property's
-"a query with populate_existing" is open, so it is not judged here.
+Finding on the unchanged tree (one canonical, history-independent signature,
+LO_SIG): lo_pe(o, a) = ``select(P).where(id).options(load_only(P.a))`` with
+populate_existing has the same reference as part_pe (what the query does not
+deliver has to be re-read on next access).  The implementation leaves a
+previously loaded column that the option defers untouched in __dict__ (only
+a deferred-loader callable is installed: neither overwritten nor expired), so
+a read returns the stale value; the option also stays in the state's
+load_options and is replayed by later refresh() / unexpire loads.  Every
+failure about an object that went through lo_pe earlier in the history (and
+every failure not about one object in such a history) is folded into LO_SIG
+and the subtree is not explored further; failures in histories without lo_pe
+on that object keep their own signatures.
 """
 import copy
 import gc
 
 from sqlalchemy import exc as sa_exc
+from sqlalchemy import bindparam
 from sqlalchemy import select
 from sqlalchemy import text
+from sqlalchemy.orm import load_only
 from sqlalchemy.orm import Session
 
 from ..engines import hist
@@ -97,10 +105,10 @@ META = dict(
     engine="H",
     technique="explicit-state BFS over histories of external committed writes interleaved with expire/refresh/commit/populate_existing (full-row and partial-row statements)/set/read on a real Session over a WAL file database, snapshot reference model in lock-step",
     design_ref="DESIGN.md §5 C46",
-    level_text="Every history over 27-35 operations (external committed UPDATE through a second connection, expire of object / "
+    level_text="Every history over 28-39 operations (external committed UPDATE through a second connection, expire of object / "
     "attribute / everything, refresh of object / attribute, commit, rollback, get and select with populate_existing, "
     "populate_existing through select(P).from_statement(text(...)) whose row delivers only the primary key and one of the "
-    "value columns (quick: the row of p1 with x and without y; thorough: one operation per object and column), plain select, attribute set, attribute read) is replayed on a fresh WAL file database and a fresh Session for both "
+    "value columns (quick: the row of p1 with x and without y; thorough: one operation per object and column), the same re-read with load_only(P.a) instead of a partial row, plain select, attribute set, attribute read) is replayed on a fresh WAL file database and a fresh Session for both "
     "expire_on_commit settings; after every operation each attribute's loaded value / expiry, the value returned by a read, "
     "the committed table and the occurrence of SQLite's lock refusals are compared with a reference that models the "
     "committed table, the transaction snapshot and the pending / loaded / expired status of every attribute.",
@@ -115,7 +123,7 @@ META = dict(
         "SQLite WAL snapshot isolation, timeout=0, python sqlite3 autocommit=False (PEP 249 transaction control)",
         "one Session, one external writer that commits each statement immediately",
     ],
-    bounds=dict(quick="expire_on_commit x all histories of length <= 4 over 27 ops (one of them partial-row populate_existing: the row for p1 delivers id and x, not y / name; canonical-state dedupe below each first op)", thorough="length <= 5 over the full alphabet (35 ops, 4 of them partial-row populate_existing) for both objects"),
+    bounds=dict(quick="expire_on_commit x all histories of length <= 4 over 28 ops (two of them partial populate_existing of p1 delivering id and x, not y / name: from_statement(text) and load_only; canonical-state dedupe below each first op)", thorough="length <= 5 over the full alphabet (39 ops, 4 partial-row and 4 load_only populate_existing) for both objects"),
 )
 
 OBJS = ("p1", "p2")
@@ -150,6 +158,9 @@ def alphabet(tier):
     # per cell
     for o, a in cells if tier != "quick" else [("p1", "x")]:
         ops.append(["part_pe", o, a])
+    # the same re-read with the columns left out by a load_only() option
+    for o, a in cells if tier != "quick" else [("p1", "x")]:
+        ops.append(["lo_pe", o, a])
     for o, a in cells:
         ops.append(["set", o, a])
     for o, a in cells:
@@ -296,7 +307,7 @@ class SnapModel:
             for k in self.mem:
                 self.mem[k] = self.snap[k]
             self.pk_exp = {o: False for o in OBJS}
-        elif name == "part_pe":
+        elif name in ("part_pe", "lo_pe"):
             # populate_existing through a statement whose row delivers only
             # the primary key and ONE column: that column is overwritten, every
             # other attribute of the object is not in the row and therefore
@@ -407,6 +418,23 @@ def _part_stmt(w, a):
     return st
 
 
+def _lo_stmt(w, a):
+    """select(P) for one primary key with load_only(P.a) (name and the other
+    value column are deferred by the option), with populate_existing"""
+    st = _PART.get((w.key, a, "lo"))
+    if st is None:
+        st = _PART[(w.key, a, "lo")] = (
+            select(w.P).where(w.p_table.c.id == bindparam("pk")).options(load_only(getattr(w.P, a))).execution_options(populate_existing=True)
+        )
+    return st
+
+
+LO_SIG = (
+    "populate_existing with load_only()/defer(): a previously loaded column that the query defers keeps its stale value "
+    "(neither overwritten nor expired)"
+)
+
+
 def apply_impl(ctx, op, model_before):
     """returns the value for read/ext; raises OperationalError when SQLite refuses"""
     s, objs, w = ctx.sess, ctx.objs, ctx.w
@@ -440,6 +468,10 @@ def apply_impl(ctx, op, model_before):
         res = s.execute(_part_stmt(w, op[2]), {"pk": w.pk(op[1])}).scalars().all()
         if [id(x) for x in res] != [id(objs[op[1]])]:
             raise AssertionError("partial-row query returned other instances")
+    elif name == "lo_pe":
+        res = s.execute(_lo_stmt(w, op[2]), {"pk": w.pk(op[1])}).scalars().all()
+        if [id(x) for x in res] != [id(objs[op[1]])]:
+            raise AssertionError("load_only query returned other instances")
     elif name == "query":
         res = s.execute(select(w.P)).scalars().all()
         if {id(x) for x in res} != {id(x) for x in objs.values()}:
@@ -492,6 +524,8 @@ def op_text(op):
         return "select(P) populate_existing"
     if n == "part_pe":
         return "select(P).from_statement(text(id, %s of %s)) populate_existing" % (op[2], op[1])
+    if n == "lo_pe":
+        return "select(P).where(id of %s).options(load_only(P.%s)) populate_existing" % (op[1], op[2])
     if n == "query":
         return "select(P)"
     if n == "set":
@@ -504,7 +538,18 @@ def op_text(op):
 def make_step(rec, eoc, tier):
     name = "eoc=%s" % eoc
 
-    def fail(cat, hist_, op, problem, ms):
+    def fail(cat, hist_, op, problem, ms, obj=None):
+        # fold by cause: the object concerned (any object for failures that
+        # are not about one object) went through a populate_existing load with
+        # a load_only() option earlier in this history.  The option leaves the
+        # columns it defers untouched and stays in the state's load_options
+        # (replayed by later refresh / unexpire loads), so every later
+        # disagreement about that object has this one root cause.
+        lo = {h[1] for h in tuple(hist_) + (op,) if h[0] == "lo_pe"}
+        if lo and (obj is None or obj in lo):
+            detail = "history: %s; then %s -> %s" % ("; ".join(op_text(h) for h in hist_) or "(initial)", op_text(op), problem)
+            rec.violation(LO_SIG, detail, dict(eoc=eoc, tier=tier, history=[list(h) for h in hist_], op=op), kind=("lo_pe",))
+            return
         # state facts that matter for the signature: which cells are pending /
         # expired / stale before the op
         view_ = ms.snap or ms.committed
@@ -581,12 +626,12 @@ def make_step(rec, eoc, tier):
             return None
         if op[0] in ("read", "ext") and not exp_locked and ret != exp_ret:
             what = "returned %r, the %s is %r" % (ret, "pending value" if (op[1], op[2]) in ms.dirty else "value in the database for the transaction" if ms.mem[(op[1], op[2])] == EXP else "previously loaded value", exp_ret) if op[0] == "read" else "external write %s, reference %s" % (ret, exp_ret)
-            fail("read" if op[0] == "read" else "env", hist_, op, what, ms)
+            fail("read" if op[0] == "read" else "env", hist_, op, what, ms, obj=op[1] if op[0] == "read" else None)
             return None
         v = view(ctx)
         for k in sorted(v):
             if v[k] != m2.mem[k]:
-                fail("state", hist_, op, "%s.%s is %s, reference %s" % (k[0], k[1], v[k], m2.mem[k]), ms)
+                fail("state", hist_, op, "%s.%s is %s, reference %s" % (k[0], k[1], v[k], m2.mem[k]), ms, obj=k[0])
                 return None
         rows = {("p%d" % i, a): val for i, x, y in ctx.db.committed("select id, x, y from p") for a, val in (("x", x), ("y", y))}
         if rows != m2.committed:
@@ -594,7 +639,7 @@ def make_step(rec, eoc, tier):
             fail("committed", hist_, op, "committed %s.%s is %r, reference %r" % (bad[0], bad[1], rows[bad], m2.committed[bad]), ms)
             return None
         rec.outcome((op[0], "locked" if exp_locked else exp_ret if op[0] == "ext" else "ok", tuple(sorted(k for k, x in m2.mem.items() if x == EXP)), tuple(sorted(k for k, x in m2.mem.items() if x != EXP and x != m2.committed[k]))))
-        if ms.stale() and op[0] in ("read", "refresh", "refresh1", "get_pe", "query_pe", "part_pe", "commit"):
+        if ms.stale() and op[0] in ("read", "refresh", "refresh1", "get_pe", "query_pe", "part_pe", "lo_pe", "commit"):
             rec.sample(dict(config=name, history=[op_text(h) for h in hist_], op=op_text(op), result=exp_ret, committed={"%s.%s" % k: x for k, x in sorted(m2.committed.items())}, memory={"%s.%s" % k: x for k, x in sorted(m2.mem.items())}), limit=2)
         return m2, repr(m2.key())
 
